@@ -130,7 +130,7 @@ prop('C03',
 
 prop('C20',
      modules=['WitnessVerif.Props.C20'],
-     scenarios=lambda tier: hist_scenarios(tier),
+     scenarios=lambda tier: hist_scenarios(tier) + [sc('fault')],
      diverge={'U': {'ctr'}},
      nontrivial=lambda u: True,
      rule='the four witness counters are read through a recording MetricFactory before and after every Update of the C09 histories; compared with the model and with the increments implied by the verdict',
